@@ -10,11 +10,12 @@ def T(name, q, th, th_shards=16, pkg="internal", race=False, q_timeout=300, th_t
     return d
 
 PROPS = {
-    "C01": dict(tests=[T("TestVerifC01", 1200, 12000, shrinktime="0s", gomaxprocs=[16, 4, 2, 16])]),
+    "C01": dict(tests=[T("TestVerifC01", 1500, 12000, shrinktime="0s", gomaxprocs=[16, 4, 2, 16])]),
     "C02": dict(tests=[T("TestVerifC02Pipeline", 15000, 200000)]),
     "C03": dict(tests=[T("TestVerifC03Seq", 4000, 60000)]),
     "C04": dict(tests=[T("TestVerifC04Wheel", 20000, 300000), T("TestVerifC04Pipeline", 8000, 100000)]),
-    "C05": dict(tests=[T("TestVerifC05Pipeline", 15000, 200000), T("TestVerifC05Pool", 8000, 100000)]),
+    "C05": dict(tests=[T("TestVerifC05Pipeline", 15000, 200000), T("TestVerifC05Pool", 8000, 100000),
+                       T("TestVerifC05Conc", 40, 600, shrinktime="0s", gomaxprocs=[16, 4, 8, 16])]),
     "C06": dict(tests=[T("TestVerifC06Seq", 4000, 60000)]),
     "C07": dict(tests=[T("TestVerifC07", 30000, 400000)]),
     "C08": dict(tests=[T("TestVerifC08Buffer", 6000, 100000), T("TestVerifC08Store", 150, 1500, shrinktime="0s")]),
